@@ -351,12 +351,19 @@ def h_update_swarm(I, fi):
     def corr(p):
         return (p.a_log_w(I) - p.a_log_p(I) + p.a_log_p_one(I)) if last else p.a_log_w(I)
 
-    P.check("L6.adds", len(new.adds) == 2, "one retained-slot add and one add per propagated slot (generic iteration)", kind="post")
-    (w0, p0, g0), (w1, p1, g1) = new.adds[0], new.adds[1]
+    single = len(new.adds) == 1 and not P.feasible(P.z(N) != 1)  # N == 1: no propagated slot at all
+    P.check("L6.adds", len(new.adds) == 2 or single, "one retained-slot add and one add per propagated slot (generic iteration; none when N == 1)", kind="post")
+    if not (len(new.adds) == 2 or single):
+        return
+    (w0, p0, g0) = new.adds[0]
+    (w1, p1, g1) = new.adds[1] if not single else (None, None, None)
     cp = CPathParticle(it + 1)
     P.check("L6.slot0-particle", I.equal(p0, cp), "slot 0 is constrained_path[iteration + 1]", kind="post")
     P.check("L6.slot0-weight", P.z(I.to_num(w0)) == P.z(alg.raw_app("uw_old", Num.const(0)) - alg.slog(Z) + corr(cp)),
             "slot 0 weight = normalised old log-weight of slot 0 + _get_log_w(retained particle)", kind="post")
+    if single:
+        P.check("L6.no-proposal-when-N-is-1", len(kern.calls) == 0 and len(g0) == 0, "with a single particle nothing is proposed", kind="post")
+        return
     P.check("L6.generic-slot", len(g1) == 1 and len(g0) == 0, "the propagated add happens inside the loop, the retained add outside", kind="post")
     j = g1[0]
     data_point, parent, prop = kern.calls[0]
@@ -386,11 +393,18 @@ def h_init_swarm(I, fi):
         return (p.a_log_w(I) - p.a_log_p(I) + p.a_log_p_one(I)) if last else p.a_log_w(I)
 
     P.check("L5.iteration", I.equal(I.getattr(s, "iteration"), 1), "the first data point is consumed: iteration == 1", kind="post")
-    P.check("L5.adds", isinstance(new, Recorder) and len(new.adds) == 2, "retained add + one add per other slot", kind="post")
-    (w0, p0, g0), (w1, p1, g1) = new.adds
+    single = isinstance(new, Recorder) and len(new.adds) == 1 and not P.feasible(P.z(N) != 1)  # N == 1: only the retained particle
+    P.check("L5.adds", isinstance(new, Recorder) and (len(new.adds) == 2 or single), "retained add + one add per other slot (none when N == 1)", kind="post")
+    if not (isinstance(new, Recorder) and (len(new.adds) == 2 or single)):
+        return
+    (w0, p0, g0) = new.adds[0]
+    (w1, p1, g1) = new.adds[1] if not single else (None, None, None)
     P.check("L5.slot0", I.equal(p0, CPathParticle(Num.const(1))), "slot 0 is constrained_path[1]", kind="post")
     cp = CPathParticle(Num.const(1))
     P.check("L5.slot0-weight", P.z(I.to_num(w0)) == P.z(-alg.slog(N) + corr(cp)), "first weight = -log N + _get_log_w (not discarded)", kind="post")
+    if single:
+        P.check("L5.no-proposal-when-N-is-1", len(kern.calls) == 0, "with a single particle nothing is proposed", kind="post")
+        return
     dp, parent, prop = kern.calls[0]
     P.check("L5.first-parent-none", parent is None, "first-generation particles are proposed from no parent", kind="post")
     P.check("L5.slot-weight", P.z(I.to_num(w1)) == P.z(-alg.slog(N) + corr(prop)), "first weight = -log N + _get_log_w(particle)", kind="post")
